@@ -183,78 +183,130 @@ Definition bool_from_id (fuel : nat) (st : state) (n : nat) : outcome bool :=
   else if is_iinteger (kind_of s n) then let? v := val fuel st n in Ok (v =? 1)
   else Err E_INVALID_NODE.
 
-(* NodeElementBase::{is_implemented,is_available,is_locked} *)
-Definition ctl (fuel : nat) (st : state) (r : option nat) (dflt : bool) : outcome bool :=
-  match r with
-  | None => Ok dflt
-  | Some n => bool_from_id fuel st n
+(* ------------------------------------------------------------ is_readable *)
+(* The body of the node-level functions, with the recursive calls abstracted:
+     rd m / wr m   is_readable / is_writable of node m through the interface of its kind
+     vl m          IInteger::value of node m            bfi m   bool_from_id m *)
+
+(* IValue<i64|f64> for NodeId::is_readable *)
+Definition nid_r (rd : nat -> outcome bool) (m : nat) : outcome bool :=
+  if is_numeric (kind_of s m) then rd m else Ok false.
+(* IValue<String> for NodeId::{is_readable,is_writable}: expect_istring_kind(store)? *)
+Definition str_q (q : nat -> outcome bool) (m : nat) : outcome bool :=
+  if is_istring (kind_of s m) then q m else Err E_INVALID_NODE.
+(* utils::{is_nid_readable,is_nid_writable} *)
+Definition var_q (q : nat -> outcome bool) (m : nat) : outcome bool :=
+  if is_varkind (kind_of s m) then q m else Err E_INVALID_NODE.
+(* ImmOrPNode::is_readable: i64/f64 literals and value ids are readable *)
+Definition iop_r (rd : nat -> outcome bool) (i : iop) : outcome bool :=
+  match i with
+  | IImm _ => Ok true
+  | ISlot _ => Ok true
+  | INode m => nid_r rd m
   end.
 
+(* NodeElementBase::{is_implemented,is_available,is_locked} *)
+Definition ctlq (bfi : nat -> outcome bool) (r : option nat) (dflt : bool) : outcome bool :=
+  match r with
+  | None => Ok dflt
+  | Some n => bfi n
+  end.
 (* NodeElementBase::is_readable *)
-Definition base_readable (fuel : nat) (st : state) (nd : node) : outcome bool :=
-  ctl fuel st (p_impl nd) true &&? ctl fuel st (p_avail nd) true &&? Ok (mode_r (imposed nd)).
-
+Definition base_r (bfi : nat -> outcome bool) (nd : node) : outcome bool :=
+  ctlq bfi (p_impl nd) true &&? ctlq bfi (p_avail nd) true &&? Ok (mode_r (imposed nd)).
 (* NodeElementBase::is_writable *)
-Definition base_writable (fuel : nat) (st : state) (nd : node) : outcome bool :=
-  ctl fuel st (p_impl nd) true &&? ctl fuel st (p_avail nd) true
-  &&? omap negb (ctl fuel st (p_lock nd) false) &&? Ok (mode_w (imposed nd)).
+Definition base_w (bfi : nat -> outcome bool) (nd : node) : outcome bool :=
+  ctlq bfi (p_impl nd) true &&? ctlq bfi (p_avail nd) true
+  &&? omap negb (ctlq bfi (p_lock nd) false) &&? Ok (mode_w (imposed nd)).
 
-(* ------------------------------------------------------------ is_readable *)
+Definition readable_step (rd : nat -> outcome bool) (vl : nat -> outcome Z) (bfi : nat -> outcome bool)
+           (nd : node) : outcome bool :=
+  let base := base_r bfi nd in
+  match nkind nd with
+  | KInteger | KFloat =>
+    base &&?
+    match nvalue nd with
+    | VOne i => iop_r rd i
+    | VPValue p _ => nid_r rd p
+    | VPIndex idx es d =>
+      (* p_index.expect_iinteger_kind(store)?.is_readable()? && { index()?; selected.is_readable()? } *)
+      if is_iinteger (kind_of s idx) then
+        rd idx &&? (let? i := vl idx in iop_r rd (select i es d))
+      else Err E_INVALID_NODE
+    end
+  | KBoolean | KEnumeration =>
+    base &&? match nvalue nd with VOne i => iop_r rd i | _ => Err E_INVALID_NODE end
+  | KString =>
+    base &&? match nvalue nd with
+             | VOne (INode m) => str_q rd m
+             | VOne _ => Ok true
+             | _ => Err E_INVALID_NODE
+             end
+  | KIntReg | KMaskedIntReg | KFloatReg | KStringReg =>
+    base &&? Ok (not_wo (regmode nd))
+  | KIntConverter | KConverter =>
+    base &&? var_q rd (conv_pvalue nd) &&? all_amp (var_q rd) (vars nd) true
+  | KIntSwissKnife => base &&? all_amp (var_q rd) (vars nd) true
+  | KSwissKnife =>
+    if sk_checks_vars c then base &&? all_amp (var_q rd) (vars nd) true else base
+  | KCommand | KRegister | KOther => Err E_NOIFACE
+  end.
+
 Fixpoint is_readable (fuel : nat) (st : state) (n : nat) : outcome bool :=
   match fuel with
   | O => Err E_FUEL
   | S f =>
     match nth_error s n with
     | None => Err E_NOIFACE
-    | Some nd =>
-      (* IValue<i64|f64> for NodeId::is_readable *)
-      let nid_r (m : nat) : outcome bool :=
-        if is_numeric (kind_of s m) then is_readable f st m else Ok false in
-      (* IValue<String> for NodeId::is_readable *)
-      let str_r (m : nat) : outcome bool :=
-        if is_istring (kind_of s m) then is_readable f st m else Err E_INVALID_NODE in
-      (* utils::is_nid_readable *)
-      let var_r (m : nat) : outcome bool :=
-        if is_varkind (kind_of s m) then is_readable f st m else Err E_INVALID_NODE in
-      let iop_r (i : iop) : outcome bool :=
-        match i with
-        | IImm _ => Ok true
-        | ISlot _ => Ok true
-        | INode m => nid_r m
-        end in
-      let base := base_readable f st nd in
-      match nkind nd with
-      | KInteger | KFloat =>
-        base &&?
-        match nvalue nd with
-        | VOne i => iop_r i
-        | VPValue p _ => nid_r p
-        | VPIndex idx es d =>
-          if is_iinteger (kind_of s idx) then
-            is_readable f st idx &&? (let? i := val f st idx in iop_r (select i es d))
-          else Err E_INVALID_NODE
-        end
-      | KBoolean | KEnumeration =>
-        base &&? match nvalue nd with VOne i => iop_r i | _ => Err E_INVALID_NODE end
-      | KString =>
-        base &&? match nvalue nd with
-                 | VOne (INode m) => str_r m
-                 | VOne _ => Ok true
-                 | _ => Err E_INVALID_NODE
-                 end
-      | KIntReg | KMaskedIntReg | KFloatReg | KStringReg =>
-        base &&? Ok (not_wo (regmode nd))
-      | KIntConverter | KConverter =>
-        base &&? var_r (conv_pvalue nd) &&? all_amp var_r (vars nd) true
-      | KIntSwissKnife => base &&? all_amp var_r (vars nd) true
-      | KSwissKnife =>
-        if sk_checks_vars c then base &&? all_amp var_r (vars nd) true else base
-      | KCommand | KRegister | KOther => Err E_NOIFACE
-      end
+    | Some nd => readable_step (is_readable f st) (val f st) (bool_from_id f st) nd
     end
   end.
 
 (* ------------------------------------------------------------ is_writable *)
+(* IValue<i64|f64> for NodeId::is_writable *)
+Definition nid_w (wr : nat -> outcome bool) (m : nat) : outcome bool :=
+  let k := kind_of s m in
+  if is_iinteger k || is_ifloat k || (nid_w_enum c && is_ienum k) then wr m else Ok false.
+(* ImmOrPNode::is_writable: a literal is not writable, a value id is *)
+Definition iop_w (wr : nat -> outcome bool) (i : iop) : outcome bool :=
+  match i with
+  | IImm _ => Ok false
+  | ISlot _ => Ok true
+  | INode m => nid_w wr m
+  end.
+
+Definition writable_step (wr rd : nat -> outcome bool) (vl : nat -> outcome Z) (bfi : nat -> outcome bool)
+           (nd : node) : outcome bool :=
+  let base := base_w bfi nd in
+  match nkind nd with
+  | KInteger | KFloat =>
+    base &&?
+    match nvalue nd with
+    | VOne i => iop_w wr i
+    | VPValue p cs => let? b := nid_w wr p in all_amp (nid_w wr) cs b
+    | VPIndex idx es d =>
+      if is_iinteger (kind_of s idx) then
+        rd idx &&? (let? i := vl idx in iop_w wr (select i es d))
+      else Err E_INVALID_NODE
+    end
+  | KBoolean | KEnumeration | KCommand =>
+    base &&? match nvalue nd with VOne i => iop_w wr i | _ => Err E_INVALID_NODE end
+  | KString =>
+    base &&? match nvalue nd with
+             | VOne (INode m) => str_q wr m
+             | VOne (ISlot _) => Ok true
+             | VOne (IImm _) => Ok false
+             | _ => Err E_INVALID_NODE
+             end
+  | KIntReg | KMaskedIntReg | KFloatReg | KStringReg =>
+    base &&? Ok (not_ro (regmode nd))
+  | KIntConverter | KConverter =>
+    (* the collector must be readable to write a value *)
+    base &&? var_q wr (conv_pvalue nd) &&? all_amp (var_q rd) (vars nd) true
+  | KIntSwissKnife | KSwissKnife => Ok false
+  | KRegister | KOther => Err E_NOIFACE
+  end.
+
 Fixpoint is_writable (fuel : nat) (st : state) (n : nat) : outcome bool :=
   match fuel with
   | O => Err E_FUEL
@@ -262,57 +314,17 @@ Fixpoint is_writable (fuel : nat) (st : state) (n : nat) : outcome bool :=
     match nth_error s n with
     | None => Err E_NOIFACE
     | Some nd =>
-      (* IValue<i64|f64> for NodeId::is_writable *)
-      let nid_w (m : nat) : outcome bool :=
-        let k := kind_of s m in
-        if is_iinteger k || is_ifloat k || (nid_w_enum c && is_ienum k)
-        then is_writable f st m else Ok false in
-      let str_w (m : nat) : outcome bool :=
-        if is_istring (kind_of s m) then is_writable f st m else Err E_INVALID_NODE in
-      (* utils::is_nid_writable *)
-      let var_w (m : nat) : outcome bool :=
-        if is_varkind (kind_of s m) then is_writable f st m else Err E_INVALID_NODE in
-      (* utils::is_nid_readable *)
-      let var_r (m : nat) : outcome bool :=
-        if is_varkind (kind_of s m) then is_readable f st m else Err E_INVALID_NODE in
-      let iop_w (i : iop) : outcome bool :=
-        match i with
-        | IImm _ => Ok false
-        | ISlot _ => Ok true
-        | INode m => nid_w m
-        end in
-      let base := base_writable f st nd in
-      match nkind nd with
-      | KInteger | KFloat =>
-        base &&?
-        match nvalue nd with
-        | VOne i => iop_w i
-        | VPValue p cs => let? b := nid_w p in all_amp nid_w cs b
-        | VPIndex idx es d =>
-          if is_iinteger (kind_of s idx) then
-            is_readable f st idx &&? (let? i := val f st idx in iop_w (select i es d))
-          else Err E_INVALID_NODE
-        end
-      | KBoolean | KEnumeration | KCommand =>
-        base &&? match nvalue nd with VOne i => iop_w i | _ => Err E_INVALID_NODE end
-      | KString =>
-        base &&? match nvalue nd with
-                 | VOne (INode m) => str_w m
-                 | VOne (ISlot _) => Ok true
-                 | VOne (IImm _) => Ok false
-                 | _ => Err E_INVALID_NODE
-                 end
-      | KIntReg | KMaskedIntReg | KFloatReg | KStringReg =>
-        base &&? Ok (not_ro (regmode nd))
-      | KIntConverter | KConverter =>
-        base &&? var_w (conv_pvalue nd) &&? all_amp var_r (vars nd) true
-      | KIntSwissKnife | KSwissKnife => Ok false
-      | KRegister | KOther => Err E_NOIFACE
-      end
+      writable_step (is_writable f st) (is_readable f st) (val f st) (bool_from_id f st) nd
     end
   end.
 
 End WithStore.
+
+(* the current values as the specification (spec/AccessSpec.v) takes them *)
+Definition iv (s : store) (F : nat) (st : state) (m : nat) : option Z :=
+  match val s F st m with Ok v => Some v | _ => None end.
+Definition bv (s : store) (F : nat) (st : state) (m : nat) : option bool :=
+  match bool_value s F st m with Ok b => Some b | _ => None end.
 
 (* ---------------------------------------------------------------- running *)
 Definition show_b (x : outcome bool) : Z :=
